@@ -50,12 +50,15 @@ def full_config():
 
 
 def field_config(kind, draw):
-    if kind == 'fixed_text':
-        return {'field_type': 'FIXED', 'field_length': draw(st.one_of(uniform(1, 12), uniform(1, 40)))}
-    if kind == 'llvar_text':
-        return {'field_type': 'LLVAR', 'field_length': 0}
-    if kind == 'lllvar_text':
-        return {'field_type': 'LLLVAR', 'field_length': 0}
+    if kind in ('fixed_text', 'llvar_text', 'lllvar_text'):
+        if kind == 'fixed_text':
+            c = {'field_type': 'FIXED', 'field_length': draw(st.one_of(uniform(1, 12), uniform(1, 40)))}
+        else:
+            # the length of a variable field is taken from its prefix; configurations in the wild carry 0 or a nominal maximum
+            c = {'field_type': 'LLVAR' if kind == 'llvar_text' else 'LLLVAR', 'field_length': draw(st.sampled_from([0, 0, 11, 23, 255]))}
+        if draw(st.sampled_from([False, False, True])):
+            c['field_python_type'] = 'string'   # the documented explicit spelling of the default
+        return c
     if kind in ('fixed_int', 'fixed_long'):
         return {'field_type': 'FIXED', 'field_length': draw(uniform(1, 18)),
                 'field_python_type': 'int' if kind == 'fixed_int' else 'long'}
@@ -67,10 +70,14 @@ def field_config(kind, draw):
         fmt = draw(st.sampled_from(sorted(DATE_FORMATS)))
         return {'field_type': 'FIXED', 'field_length': DATE_FORMATS[fmt], 'field_python_type': 'datetime',
                 'field_date_format': fmt}
-    if kind == 'pan':
-        return {'field_type': draw(st.sampled_from(['LLVAR', 'LLLVAR'])), 'field_length': 0, 'field_processor': 'PAN'}
-    if kind == 'pan_prefix':
-        return {'field_type': draw(st.sampled_from(['LLVAR', 'LLLVAR'])), 'field_length': 0, 'field_processor': 'PAN-PREFIX'}
+    if kind in ('pan', 'pan_prefix'):
+        c = {'field_type': draw(st.sampled_from(['LLVAR', 'LLLVAR'])), 'field_length': draw(st.sampled_from([0, 0, 19])),
+             'field_processor': 'PAN' if kind == 'pan' else 'PAN-PREFIX'}
+        if draw(st.booleans()):
+            c['field_python_type'] = 'string'
+        if draw(st.booleans()):
+            c['field_processor_config'] = ''
+        return c
     if kind == 'pds':
         return {'field_type': 'LLLVAR', 'field_length': 0, 'field_processor': 'PDS'}
     if kind == 'icc':
@@ -183,7 +190,19 @@ def decimals_for(draw, width):
         text = digits[:intd] + '.' + digits[intd:]
     else:
         text = digits
-    return decimal.Decimal(text)
+    value = decimal.Decimal(text)
+    form = draw(st.sampled_from(['plain', 'plain', 'plain', 'exponent', 'normalized', 'zero']))
+    if form == 'exponent' and not frac and intd + 3 <= width:
+        # same number class, different representation: 12E+3 is the integer 12000
+        return decimal.Decimal((0, tuple(int(c) for c in digits.lstrip('0') or '0'), draw(uniform(1, 3))))
+    if form == 'normalized':
+        n = value.normalize()
+        sign, ds, exp = n.as_tuple()
+        if (exp >= 0 and len(ds) + exp <= width) or (exp < 0 and max(len(ds), -exp + 1) + 1 <= width):
+            return n
+    if form == 'zero' and frac:
+        return decimal.Decimal('0.' + '0' * frac)
+    return value
 
 
 @st.composite
